@@ -1689,7 +1689,7 @@ class HasTraits(CHasTraits, metaclass=MetaHasTraits):
         return self.clone_traits(
             memo=memo,
             traits=memo.get("traits_to_copy"),
-            copy=memo.get("traits_copy_mode"),
+            copy=memo.get("traits_copy_mode", "deep"),
         )
 
     def edit_traits(
